@@ -606,23 +606,27 @@ func r046(c *Ctx, r *R) {
 		r.Und("shortcut", f.Pos(), "PinGet not found in pin()")
 		return
 	}
+	// wherever the pin that is logged can be the stored pin itself (the
+	// "nothing changed, keep the allocations" shortcut), the path that
+	// selected it established: the pin exists, the options are equal, the
+	// exclusion list is empty. Decided on the value that reaches LogPin
+	// (a phi in pin(), or the result of a helper that makes the choice).
 	n := 0
-	instrs(f, func(i ssa.Instruction) {
-		phi, ok := i.(*ssa.Phi)
-		if !ok {
-			return
-		}
-		for ei, e := range phi.Edges {
-			pc, idx := originCall(e)
+	seenLeaf := map[string]bool{}
+	for _, lp := range findCalls(f, false, c04Sinks[0]) {
+		for _, lf := range valueLeavesDeep(callArgs(lp.Common())[1], lp.Block()) {
+			pc, idx := originCall(lf.Val)
 			if pc != get || idx != 0 {
 				continue
 			}
-			// `pin = existing`
+			key := fmt.Sprintf("%p/%p", lf.Block, lf.Into)
+			if seenLeaf[key] {
+				continue
+			}
+			seenLeaf[key] = true
 			n++
-			pred := phi.Block().Preds[ei]
-			gs := guardsOf(pred)
 			nonNil, eq, emptyBL := false, false, false
-			for _, g := range gs {
+			for _, g := range lf.Guards() {
 				if gNil(g, true, func(v ssa.Value) bool { cc, _ := originCall(v); return cc == get }) {
 					nonNil = true
 				}
@@ -637,10 +641,10 @@ func r046(c *Ctx, r *R) {
 					}
 				}
 			}
-			r.Check(nonNil && eq && emptyBL, "shortcut:conditions", phi.Pos(), "existing allocations are kept only when the pin exists, its options are equal and nothing is excluded",
+			r.Check(nonNil && eq && emptyBL, "shortcut:conditions", lf.Pos, "existing allocations are kept only when the pin exists, its options are equal and nothing is excluded",
 				fmt.Sprintf("the same-options shortcut lacks a condition (existing != nil: %v, options equal: %v, empty exclusion list: %v)", nonNil, eq, emptyBL))
 		}
-	})
+	}
 	if n == 0 {
 		r.Und("shortcut", f.Pos(), "the `pin = existing` shortcut was not found in pin()")
 	}
